@@ -107,6 +107,9 @@ package pool
 //@   modifies *
 //@   ensures !gHeld
 //@   ensures gNewCalls == old(gNewCalls) && result1 == nil ==> result0 != nil && gUsableOK[refOf(result0)]
+// "never handed out after it exceeded its idle lifetime": the deadline a received connection is tested against is its
+// own last use plus the configured connection idle lifetime (not the bucket lifetime, not another bound).
+//@   assert-call (time.Time).Add : -9223372036 <= p.cfg.MaxConnLifetimeSec && p.cfg.MaxConnLifetimeSec <= 9223372036 ==> $d == p.cfg.MaxConnLifetimeSec * 1000000000
 //@   assert-load keys : gHeld
 //@   assert-store keys : gHeld
 //@   loop 0 invariant !gHeld && gNewCalls == old(gNewCalls)
